@@ -45,6 +45,7 @@ type Oracle struct {
 	Lock     bool // IsLocked agrees with the model
 	Events   bool // observer callbacks multiset per operation
 	InCb     bool // C09: inspect the world from inside observer callbacks
+	InCbPtr  bool // C14: with InCb, only check the pointers handed to typed observers
 	Res      bool // resources agree with the model
 	Tuple    []ct.Comp // C14: MapN for this ordered tuple returns pointers in parameter order, equal to ID-based access
 	ProbeCb  bool // C07: attempt structural operations from inside removal and batch callbacks
